@@ -168,7 +168,7 @@ func specs() map[string]propSpec {
 	}, rule: "random multigraphs x adversarial injective renamings (helper-name alphabets, empty, long, unicode)"}
 
 	o = full
-	o.P4 = []string{"sink", "valign", "packright", "bk"}
+	o.P4 = []string{"sink", "valign", "packright", "bk", "bk0", "bk2", "ns"}
 	m["C09"] = propSpec{opts: o, gen: func(r *Rng) Case {
 		if r.Bool(12) {
 			// a component whose network-simplex budget binds (thoroughness 1, dense, 14-22 nodes) next to a chain that
